@@ -219,6 +219,20 @@ impl Transaction {
         }
     }
 
+    /// The Proposition this transaction already staged for a tuple, if any.
+    ///
+    /// `ENSURE` resolves identity through the unique `tuple_key` index, which
+    /// only knows what has been committed. Two clauses of one block naming the
+    /// same tuple must still resolve to one element (§59): without this the
+    /// second mints its own row, and the commit fails on the index after the
+    /// rows before it were already written.
+    pub fn staged_proposition(&self, tuple_key: &str) -> Option<ElementId> {
+        self.staged.iter().find_map(|(id, staged)| match &staged.row {
+            Element::Proposition(row) if row.tuple_key == tuple_key => Some(*id),
+            _ => None,
+        })
+    }
+
     /// Checks an `EXPECT STATE` guard against an Assertion's lifecycle status.
     ///
     /// Distinct from [`Self::expect_state`], which reads the *engine* state:
